@@ -7,16 +7,16 @@ func init() {
 }
 
 var vfC09Extra = [][2]string{
-	{"POLYGON((0 0,8 0,8 8,0 8,0 0),(2 2,6 2,6 6,2 6,2 2))", "POINT(4 4)"},                   // point in a hole
-	{"POLYGON((0 0,8 0,8 8,0 8,0 0),(2 2,6 2,6 6,2 6,2 2))", "LINESTRING(3 3,5 5)"},          // line in a hole
-	{"POLYGON((0 0,8 0,8 8,0 8,0 0),(2 2,6 2,6 6,2 6,2 2))", "MULTIPOINT(4 4,3 5)"},          // points in a hole
+	{"POLYGON((0 0,8 0,8 8,0 8,0 0),(2 2,6 2,6 6,2 6,2 2))", "POINT(4 4)"},          // point in a hole
+	{"POLYGON((0 0,8 0,8 8,0 8,0 0),(2 2,6 2,6 6,2 6,2 2))", "LINESTRING(3 3,5 5)"}, // line in a hole
+	{"POLYGON((0 0,8 0,8 8,0 8,0 0),(2 2,6 2,6 6,2 6,2 2))", "MULTIPOINT(4 4,3 5)"}, // points in a hole
 	{"POLYGON((0 0,8 0,8 8,0 8,0 0),(2 2,6 2,6 6,2 6,2 2))", "MULTIPOLYGON(((3 3,5 3,5 5,3 5,3 3)),((9 9,10 9,10 10,9 9)))"},
 	{"MULTIPOLYGON(((0 0,2 0,2 2,0 2,0 0)),((5 5,9 5,9 9,5 9,5 5),(6 6,8 6,8 8,6 8,6 6)))", "MULTILINESTRING((3 3,4 4),(6.5 6.5,7.5 7.5))"},
-	{"MULTILINESTRING((0 0,1 1),(5 5,6 6))", "MULTILINESTRING((0 1,1 2),(6 6,7 5))"},         // only the last members meet
+	{"MULTILINESTRING((0 0,1 1),(5 5,6 6))", "MULTILINESTRING((0 1,1 2),(6 6,7 5))"}, // only the last members meet
 	{"MULTIPOINT(1 1,2 2,3 3)", "MULTIPOINT(4 4,3 3)"},
 	{"GEOMETRYCOLLECTION(POINT(9 9),LINESTRING(0 0,1 1),POLYGON((4 4,6 4,6 6,4 6,4 4)))", "GEOMETRYCOLLECTION(POINT EMPTY,GEOMETRYCOLLECTION(POINT(5 5)))"},
-	{"LINESTRING(0 0,4 0)", "LINESTRING(5 0,9 0)"},                                           // collinear, apart
-	{"POLYGON((0 0,4 0,4 4,0 4,0 0))", "POLYGON((5 0,9 0,9 4,5 4,5 0))"},                     // apart
+	{"LINESTRING(0 0,4 0)", "LINESTRING(5 0,9 0)"},                       // collinear, apart
+	{"POLYGON((0 0,4 0,4 4,0 4,0 0))", "POLYGON((5 0,9 0,9 4,5 4,5 0))"}, // apart
 	// MultiPolygons with several members whose extreme vertices sit at different ring positions
 	{"MULTIPOLYGON(((0 0,2 0,2 2,0 2,0 0)),((4 0,6 0,6 2,4 2,4 0)),((8 0,12 -3,12 3,8 2,8 0)),((0 5,1 9,-3 7,0 5)))", "POINT(20 20)"},
 	{"MULTIPOLYGON(((0 0,1 0,1 1,0 0)),((3 3,4 3,4 4,3 3)),((6 0,7 -6,9 0,8 5,6 0)),((-5 0,-4 -1,-3 0,-4 6,-5 0)))", "LINESTRING(0 -8,1 -9)"},
